@@ -1,12 +1,18 @@
 /-
 C14 — equivalent descriptions of one structure give identical matrices.
-All statements are about the kernel models REGENERATED from the .pyx sources (Gen/Panel/*).
+All statements are about the kernel models REGENERATED from the .pyx sources (Gen/Panel/*; the last part, numerically
+integrated = analytic at the undeformed state, also Gen/PanelNum/* and the Gauss–Legendre table Gen/CTables/LegGauss*).
 -/
 import CompmechVerif.Gen.Panel.Plate
 import CompmechVerif.Gen.Panel.PlateW
 import CompmechVerif.Gen.Panel.CPanel
 import CompmechVerif.Gen.Panel.KPanel
 import CompmechVerif.Spec.Equivalences
+import CompmechVerif.Spec.GaussBardell
+import CompmechVerif.Gen.PanelNum.Plate
+import CompmechVerif.Gen.PanelNum.CPanel
+import CompmechVerif.Props.C02
+import CompmechVerif.Props.C08
 import CompmechVerif.Core.OpSpecTactics
 import Mathlib.Tactic.FinCases
 import Mathlib.Data.Fintype.Basic
@@ -129,5 +135,172 @@ theorem similarity_kG0 (P : PCtx K) (s e q : K) (hs : s ≠ 0) (ha : P.a ≠ 0) 
 theorem similarity_kM (P : PCtx K) (s e q : K) (hs : s ≠ 0) (ha : P.a ≠ 0) (hb : P.b ≠ 0) (ro co : Fin 3) :
     CPanel.fkM.entry ro co (P.scale s e q) = q * s ^ 3 * CPanel.fkM.entry ro co P := by
   fin_cases ro <;> fin_cases co <;> simp [Fin.reduceFinMk, panel_entry, PCtx.scale] <;> field_simp <;> ring
+
+/-! ### numerically integrated kernels at the undeformed state = analytic kernels: the WHOLE tensor quadrature
+
+`T : TensorRule` is any tensor-product rule (abscissae, weights, basis values at the abscissae); `X g h` is the context
+the loop body of `fkL_num` sees at the point `(g, h)` (`T.Family X`: weight `wx_g·wy_h`, x-values depending on `g` only,
+y-values on `h` only); `T.sum` adds over all points in the loop order of the kernel; `T.quadCtx base` is `base` with every
+one-dimensional integral replaced by its quadrature `Σ_g wx_g·E_g·E_g` (`Spec/GaussLift.lean`). -/
+
+omit [CharZero K] in
+/-- the analytic stiffness depends on the laminate table only through the 18 entries `A11 … D66` it reads
+(`abdOf F`: the ABD matrix with these entries) -/
+theorem k0_reads_abd_plate (P : PCtx K) (ro co : Fin 3) :
+    Plate.fk0.entry ro co P = Plate.fk0.entry ro co { P with F := abdOf P.F } := by
+  fin_cases ro <;> fin_cases co <;> rfl
+
+omit [CharZero K] in
+theorem k0_reads_abd_cpanel (P : PCtx K) (ro co : Fin 3) :
+    CPanel.fk0.entry ro co P = CPanel.fk0.entry ro co { P with F := abdOf P.F } := by
+  fin_cases ro <;> fin_cases co <;> rfl
+
+/-- **flat plate, any field, any tensor rule, any laminate table, any series indices and edge flags**: if every
+integration point has the panel dimensions and the laminate table of `base`, the SUM over all points of the `fkL_num`
+integrand at the undeformed state (`wxi = weta = 0`) IS the analytic `fk0` entry evaluated with the quadrature integrals
+— an exact algebraic identity (no tolerance).  What remains between "numerical" and "analytic" is only the difference
+between the quadrature integrals and the true ones (`num_at_zero_eq_analytic_plate_tabulated`). -/
+theorem num_at_zero_eq_analytic_plate {ιx ιy : Type} (T : TensorRule K ιx ιy) (X : ιx → ιy → NCtx K) (hX : T.Family X)
+    (base : PCtx K) (hgeo : ∀ g h, (X g h).a = base.a ∧ (X g h).b = base.b ∧ (X g h).F = base.F)
+    (ha : base.a ≠ 0) (hb : base.b ≠ 0) (ro co : Fin 3) :
+    T.sum (fun g h => PanelNum.Plate.fkL_num.entry ro co { X g h with wxi := 0, weta := 0 })
+      = Plate.fk0.entry ro co (T.quadCtx base) := by
+  have h1 : ∀ g h, PanelNum.Plate.fkL_num.entry ro co { X g h with wxi := 0, weta := 0 }
+      = (X g h).weight * Plate.fk0.entry ro co (X g h).toP := fun g h =>
+    C08.kL_at_zero_eq_k0_plate (X g h) (by rw [(hgeo g h).1]; exact ha) (by rw [(hgeo g h).2.1]; exact hb) ro co
+  rw [T.sum_congr h1, T.sum_weight_mul hX, k0_reads_abd_plate (T.quadCtx base)]
+  have hP := hX.toP.withF fun _ _ => abdOf base.F
+  have e : ∀ g h, Plate.fk0.entry ro co (X g h).toP
+      = Plate.fk0.entry ro co { (X g h).toP with F := abdOf base.F } := by
+    intro g h
+    rw [k0_reads_abd_plate (X g h).toP]
+    simp only [NCtx.toP, (hgeo g h).2.2]
+  rw [T.wsum_congr e]
+  refine T.wsum_of_eq_hessian hP { base with F := abdOf base.F } (fun g h => (hgeo g h).1) (fun g h => (hgeo g h).2.1)
+    .full .full (plateOps base) (abdOf base.F) (fld3 ro) (fld3 co) (Plate.fk0.entry ro co) (fun g h => ?_) ?_
+  · rw [C02.k0_entry_eq_hessian_plate _ (by show (X g h).a ≠ 0; rw [(hgeo g h).1]; exact ha)
+      (by show (X g h).b ≠ 0; rw [(hgeo g h).2.1]; exact hb) (isABD_abdOf _)]
+    rw [plateOps_congr (Q := base) (hgeo g h).1 (hgeo g h).2.1]
+  · exact C02.k0_entry_eq_hessian_plate (T.quadCtx { base with F := abdOf base.F }) ha hb (isABD_abdOf _) ro co
+
+/-- **cylindrical panel**: the same with the radius of `base` at every point -/
+theorem num_at_zero_eq_analytic_cpanel {ιx ιy : Type} (T : TensorRule K ιx ιy) (X : ιx → ιy → NCtx K) (hX : T.Family X)
+    (base : PCtx K)
+    (hgeo : ∀ g h, (X g h).a = base.a ∧ (X g h).b = base.b ∧ (X g h).r = base.r ∧ (X g h).F = base.F)
+    (ha : base.a ≠ 0) (hb : base.b ≠ 0) (hr : base.r ≠ 0) (ro co : Fin 3) :
+    T.sum (fun g h => PanelNum.CPanel.fkL_num.entry ro co { X g h with wxi := 0, weta := 0 })
+      = CPanel.fk0.entry ro co (T.quadCtx base) := by
+  have h1 : ∀ g h, PanelNum.CPanel.fkL_num.entry ro co { X g h with wxi := 0, weta := 0 }
+      = (X g h).weight * CPanel.fk0.entry ro co (X g h).toP := fun g h =>
+    C08.kL_at_zero_eq_k0_cpanel (X g h) (by rw [(hgeo g h).1]; exact ha) (by rw [(hgeo g h).2.1]; exact hb)
+      (by rw [(hgeo g h).2.2.1]; exact hr) ro co
+  rw [T.sum_congr h1, T.sum_weight_mul hX, k0_reads_abd_cpanel (T.quadCtx base)]
+  have hP := hX.toP.withF fun _ _ => abdOf base.F
+  have e : ∀ g h, CPanel.fk0.entry ro co (X g h).toP
+      = CPanel.fk0.entry ro co { (X g h).toP with F := abdOf base.F } := by
+    intro g h
+    rw [k0_reads_abd_cpanel (X g h).toP]
+    simp only [NCtx.toP, (hgeo g h).2.2.2]
+  rw [T.wsum_congr e]
+  refine T.wsum_of_eq_hessian hP { base with F := abdOf base.F } (fun g h => (hgeo g h).1) (fun g h => (hgeo g h).2.1)
+    .full .full (cpanelOps base) (abdOf base.F) (fld3 ro) (fld3 co) (CPanel.fk0.entry ro co) (fun g h => ?_) ?_
+  · rw [C02.k0_entry_eq_hessian_cpanel _ (by show (X g h).a ≠ 0; rw [(hgeo g h).1]; exact ha)
+      (by show (X g h).b ≠ 0; rw [(hgeo g h).2.1]; exact hb) (by show (X g h).r ≠ 0; rw [(hgeo g h).2.2.1]; exact hr)
+      (isABD_abdOf _)]
+    rw [cpanelOps_congr (Q := base) (hgeo g h).1 (hgeo g h).2.1 (hgeo g h).2.2.1]
+  · exact C02.k0_entry_eq_hessian_cpanel (T.quadCtx { base with F := abdOf base.F }) ha hb hr (isABD_abdOf _) ro co
+
+/-! #### the tabulated Gauss–Legendre rules and the Bardell functions (over ℝ)
+
+`(nx, ptsx, wtsx)`, `(ny, ptsy, wtsy)` are ANY two cases of the regenerated table of `leggauss_quad`; the abscissae are the
+binary64 roundings of the literals (`gaussRuleB64`, list of `(node, weight)`); the basis values at a node are
+`flag · D^d u_a(node)` with the exact Bardell polynomials (`bardellRule`; `fl dir f t`, `t < 4`: the four edge flags of
+field `f` in direction `dir`; `(i, j)` / `(k, l)`: series indices of the row / column degree of freedom).
+`ctxAt base I i k j l` is the context of the analytic kernels for these indices with the integral family `I`
+(`Spec/WholeMatrix.lean`, the same as in the whole-matrix theorems of C02/C03). -/
+
+section tabulated
+open Compmech.C10
+
+/-- **flat plate, tabulated rules.**  (1) The sum over the `nx × ny` Gauss points of the `fkL_num` integrand at the
+undeformed state is the analytic `fk0` entry for the same series indices evaluated with the quadrature integrals
+`quadIntegrals` (exactly).  (2) If both rules have at least 4 points and more points than the series indices involved
+(`4 ≤ nx`, `i, k < nx`, `4 ≤ ny`, `j, l < ny` — for series orders `m, n`: `nx ≥ max m 4`, `ny ≥ max n 4`; the bound 4 comes
+from the cubic Hermite functions, whose products have degree 6 even when `m < 4`), every integral the entry reads is
+within the C10 tolerance `2·10⁻¹⁵·quadScale` of the real integral `flag·flag·∫_{-1}^{1} D^{d₁}u_a·D^{d₂}u_b`. -/
+theorem num_at_zero_eq_analytic_plate_tabulated {nx ny : Nat} {ptsx wtsx ptsy wtsy : List Lit}
+    (hx : (nx, ptsx, wtsx) ∈ C10.Gen.LegGauss.table) (hy : (ny, ptsy, wtsy) ∈ C10.Gen.LegGauss.table)
+    (fl : Dir → Fld → Nat → ℝ) (i k j l : Nat) (base : PCtx ℝ) (ha : base.a ≠ 0) (hb : base.b ≠ 0)
+    (X : ℝ × ℝ → ℝ × ℝ → NCtx ℝ)
+    (hX : (bardellRule (gaussRuleB64 ptsx wtsx) (gaussRuleB64 ptsy wtsy) fl i k j l).Family X)
+    (hgeo : ∀ g h, (X g h).a = base.a ∧ (X g h).b = base.b ∧ (X g h).F = base.F) (ro co : Fin 3) :
+    (bardellRule (gaussRuleB64 ptsx wtsx) (gaussRuleB64 ptsy wtsy) fl i k j l).sum
+        (fun g h => PanelNum.Plate.fkL_num.entry ro co { X g h with wxi := 0, weta := 0 })
+      = Plate.fk0.entry ro co (ctxAt base (quadIntegrals (gaussRuleB64 ptsx wtsx) (gaussRuleB64 ptsy wtsy) fl) i k j l)
+    ∧ (4 ≤ nx ∧ i < nx ∧ k < nx → 4 ≤ ny ∧ j < ny ∧ l < ny →
+        ∀ (dir : Dir) (d₁ : Nat) (f₁ : Fld) (a : Idx) (d₂ : Nat) (f₂ : Fld) (b : Idx),
+          |(ctxAt base (quadIntegrals (gaussRuleB64 ptsx wtsx) (gaussRuleB64 ptsy wtsy) fl) i k j l).J dir .full d₁ f₁ a d₂ f₂ b
+              - (ctxAt base (exactIntegrals fl) i k j l).J dir .full d₁ f₁ a d₂ f₂ b| * 10 ^ 15
+            ≤ 2 * quadScale fl dir d₁ f₁ (pick dir a i k j l) d₂ f₂ (pick dir b i k j l)) := by
+  refine ⟨?_, fun hxo hyo => ctxAt_quad_close hx hy fl base hxo hyo⟩
+  rw [num_at_zero_eq_analytic_plate _ X hX base hgeo ha hb ro co, bardellRule_quadCtx]
+
+/-- **cylindrical panel, tabulated rules** -/
+theorem num_at_zero_eq_analytic_cpanel_tabulated {nx ny : Nat} {ptsx wtsx ptsy wtsy : List Lit}
+    (hx : (nx, ptsx, wtsx) ∈ C10.Gen.LegGauss.table) (hy : (ny, ptsy, wtsy) ∈ C10.Gen.LegGauss.table)
+    (fl : Dir → Fld → Nat → ℝ) (i k j l : Nat) (base : PCtx ℝ) (ha : base.a ≠ 0) (hb : base.b ≠ 0) (hr : base.r ≠ 0)
+    (X : ℝ × ℝ → ℝ × ℝ → NCtx ℝ)
+    (hX : (bardellRule (gaussRuleB64 ptsx wtsx) (gaussRuleB64 ptsy wtsy) fl i k j l).Family X)
+    (hgeo : ∀ g h, (X g h).a = base.a ∧ (X g h).b = base.b ∧ (X g h).r = base.r ∧ (X g h).F = base.F) (ro co : Fin 3) :
+    (bardellRule (gaussRuleB64 ptsx wtsx) (gaussRuleB64 ptsy wtsy) fl i k j l).sum
+        (fun g h => PanelNum.CPanel.fkL_num.entry ro co { X g h with wxi := 0, weta := 0 })
+      = CPanel.fk0.entry ro co (ctxAt base (quadIntegrals (gaussRuleB64 ptsx wtsx) (gaussRuleB64 ptsy wtsy) fl) i k j l)
+    ∧ (4 ≤ nx ∧ i < nx ∧ k < nx → 4 ≤ ny ∧ j < ny ∧ l < ny →
+        ∀ (dir : Dir) (d₁ : Nat) (f₁ : Fld) (a : Idx) (d₂ : Nat) (f₂ : Fld) (b : Idx),
+          |(ctxAt base (quadIntegrals (gaussRuleB64 ptsx wtsx) (gaussRuleB64 ptsy wtsy) fl) i k j l).J dir .full d₁ f₁ a d₂ f₂ b
+              - (ctxAt base (exactIntegrals fl) i k j l).J dir .full d₁ f₁ a d₂ f₂ b| * 10 ^ 15
+            ≤ 2 * quadScale fl dir d₁ f₁ (pick dir a i k j l) d₂ f₂ (pick dir b i k j l)) := by
+  refine ⟨?_, fun hxo hyo => ctxAt_quad_close hx hy fl base hxo hyo⟩
+  rw [num_at_zero_eq_analytic_cpanel _ X hX base hgeo ha hb hr ro co, bardellRule_quadCtx]
+
+end tabulated
+
+/-! #### non-vacuity -/
+
+/-- the hypotheses of `num_at_zero_eq_analytic_plate` are satisfiable for EVERY rule and every template point: the
+points `T.point X0 g h` (weight `wx_g·wy_h`, values of the rule, everything else from `X0`) form a family -/
+example {ιx ιy : Type} (T : TensorRule ℚ ιx ιy) (X0 : NCtx ℚ) (ha : X0.a ≠ 0) (hb : X0.b ≠ 0) (ro co : Fin 3) :
+    T.sum (fun g h => PanelNum.Plate.fkL_num.entry ro co { T.point X0 g h with wxi := 0, weta := 0 })
+      = Plate.fk0.entry ro co (T.quadCtx X0.toP) :=
+  num_at_zero_eq_analytic_plate T (T.point X0) (T.family_point X0) X0.toP (fun _ _ => ⟨rfl, rfl, rfl⟩) ha hb ro co
+
+example {ιx ιy : Type} (T : TensorRule ℚ ιx ιy) (X0 : NCtx ℚ) (ha : X0.a ≠ 0) (hb : X0.b ≠ 0) (hr : X0.r ≠ 0)
+    (ro co : Fin 3) :
+    T.sum (fun g h => PanelNum.CPanel.fkL_num.entry ro co { T.point X0 g h with wxi := 0, weta := 0 })
+      = CPanel.fk0.entry ro co (T.quadCtx X0.toP) :=
+  num_at_zero_eq_analytic_cpanel T (T.point X0) (T.family_point X0) X0.toP (fun _ _ => ⟨rfl, rfl, rfl, rfl⟩) ha hb hr ro co
+
+/-- the identity is not `0 = 0`: one point of weight 3, `D¹φ^u = 2` along x and `D⁰φ^u = 5` along y for both degrees of
+freedom, `A11 = 7`, `a = b = 1`: the `(u, u)` entry is `3 · 7 · 2·2 · 5·5 = 2100` on both sides -/
+example :
+    let T : TensorRule ℚ Unit Unit :=
+      ⟨[()], [()], fun _ => 3, fun _ => 1, fun _ d _ _ => if d = 1 then 2 else 0, fun _ d _ _ => if d = 0 then 5 else 0⟩
+    let X0 : NCtx ℚ := ⟨1, 1, 1, fun p q => if p = 0 ∧ q = 0 then 7 else 0, 0, 0, 0, 0, 0, 0, 0, 0, 0, 0, 0, 0, 0, 0, 0,
+      fun _ => 0, fun _ _ _ _ => 0⟩
+    T.sum (fun g h => PanelNum.Plate.fkL_num.entry 0 0 { T.point X0 g h with wxi := 0, weta := 0 }) = 2100 ∧
+      Plate.fk0.entry 0 0 (T.quadCtx X0.toP) = 2100 := by
+  constructor <;> simp [TensorRule.sum, TensorRule.point, TensorRule.quadCtx, TensorRule.Jq, NCtx.toP, panel_entry] <;> norm_num
+
+/-- the tabulated theorem applies to the 4-point rule along x and the 5-point rule along y with the first hierarchical
+function (`i = k = j = l = 4` would need 5 points along x; here `i = k = 3`, `j = l = 4`) -/
+example (fl : Dir → Fld → Nat → ℝ) (base : PCtx ℝ) (ha : base.a ≠ 0) (hb : base.b ≠ 0) (X0 : NCtx ℝ)
+    (h0 : X0.a = base.a ∧ X0.b = base.b ∧ X0.F = base.F) (dir : Dir) (d₁ d₂ : Nat) (f₁ f₂ : Fld) (a b : Idx) :
+    |(ctxAt base (quadIntegrals (C10.gaussRuleB64 C10.Gen.LegGauss.points_4 C10.Gen.LegGauss.weights_4)
+          (C10.gaussRuleB64 C10.Gen.LegGauss.points_5 C10.Gen.LegGauss.weights_5) fl) 3 3 4 4).J dir .full d₁ f₁ a d₂ f₂ b
+        - (ctxAt base (exactIntegrals fl) 3 3 4 4).J dir .full d₁ f₁ a d₂ f₂ b| * 10 ^ 15
+      ≤ 2 * quadScale fl dir d₁ f₁ (pick dir a 3 3 4 4) d₂ f₂ (pick dir b 3 3 4 4) :=
+  (num_at_zero_eq_analytic_plate_tabulated (nx := 4) (ny := 5) (by simp [C10.Gen.LegGauss.table])
+    (by simp [C10.Gen.LegGauss.table]) fl 3 3 4 4 base ha hb _ (TensorRule.family_point _ X0)
+    (fun _ _ => h0) 0 0).2 (by omega) (by omega) dir d₁ f₁ a d₂ f₂ b
 
 end Compmech.Panel.C14
